@@ -107,7 +107,8 @@ CHECKS["C01"] = dict(
     level_text="Every history is executed on the fully assembled real instance (provider, dispatcher, inhibitor, silencer, dedup, retry, nflog, API). Monitors: eligible+accepting for longer than B => successful notification listing the alert firing by B and never omitted for longer than B afterwards; retry law inside a flush; C04 and C05 monitors run as well.",
     level_note="B = max(group_wait, group_interval) + 20s slack (hang 8s + largest backoff gap). One route shape here; routing shapes are C07's, cluster wait C08's.",
     assumptions=FAPP_ASSUME,
-    units=[dict(pkg="app", test="TestVerifC01App", shards_quick=16, shards_thorough=16, budget_quick=100, budget_thorough=1500)],
+    units=[dict(pkg="app", test="TestVerifC01App", shards_quick=12, shards_thorough=16, budget_quick=100, budget_thorough=1500),
+           dict(pkg="dispatch", test="TestVerifC01Sched", gomaxprocs=1, shards_quick=4, shards_thorough=16, budget_quick=60, budget_thorough=1500)],
 )
 CHECKS["C04"] = dict(
     level="model_checking",
@@ -127,7 +128,8 @@ CHECKS["C05"] = dict(
     level_text="No payload lists an alert resolved while the submitted timeline says it fires; send_resolved=false integrations never receive resolved alerts; an alert told firing that ends (explicitly or by timeout) is told resolved within B unless it re-fired; a group that resolved entirely inside group_wait sends nothing; re-fire during an in-flight (hanging) resolved delivery is reported firing at the next flush (C01 monitor).",
     level_note="Ends are explicit (now) or heartbeat timeouts (resolve_timeout 1m); merge tie-breaks are C13's subject.",
     assumptions=FAPP_ASSUME,
-    units=[dict(pkg="app", test="TestVerifC05App", shards_quick=16, shards_thorough=16, budget_quick=100, budget_thorough=1500)],
+    units=[dict(pkg="app", test="TestVerifC05App", shards_quick=12, shards_thorough=16, budget_quick=100, budget_thorough=1500),
+           dict(pkg="dispatch", test="TestVerifC05Sched", gomaxprocs=1, shards_quick=4, shards_thorough=16, budget_quick=60, budget_thorough=1500)],
 )
 
 CHECKS["C13"] = dict(
@@ -149,7 +151,8 @@ CHECKS["C06"] = dict(
     level_text="Every notification carries alerts of exactly one route and one group-label assignment (group key and labels recomputed by hand from the config), lists every alert of that group firing since before the flush tick (never a delta), one key is never served by two live aggregation groups, GET /alerts/groups equals the partition, a re-created group waits a fresh group_wait; group keys are stable across reload and restart.",
     level_note="7 alerts, 4 routes, labels a,b in {absent,1,2}. Group keys are compared as exact strings recomputed independently.",
     assumptions=FAPP_ASSUME,
-    units=[dict(pkg="app", test="TestVerifC06App", shards_quick=16, shards_thorough=16, budget_quick=100, budget_thorough=1500)],
+    units=[dict(pkg="app", test="TestVerifC06App", shards_quick=12, shards_thorough=16, budget_quick=100, budget_thorough=1500),
+           dict(pkg="dispatch", test="TestVerifC06Sched", gomaxprocs=1, shards_quick=4, shards_thorough=16, budget_quick=60, budget_thorough=1500)],
 )
 
 E4_ASSUME = ["exhaustive within the stated finite family of inputs; inputs outside the family are not explored", "the reference is written from the property statement and does not call the function under test"]
